@@ -729,6 +729,26 @@ Definition resolve (g : st) : list (src * slot * kind * oid) :=
   ++ flat_map (surf_targets g) (coll g KSurf)
   ++ flat_map (mt_targets g) (flat_map (ditem_mts g) (dins g)).
 
+(* print_in_data_block["U"] / ["FILL"] = True: the per-cell values are printed as ONE data-block card
+   with an entry per member cell, in cell order (UniverseInput / Fill._collect_new_values re-read the
+   number of the pointee as well); 0 = jump: universe 0 / no universe, not filled *)
+Definition u_entry (g : st) (c : oid) : Z :=
+  match c_univ (cellf g c) with Some u => num g KUniv u | None => 0 end.
+Definition fill_entry (g : st) (c : oid) : Z :=
+  match c_fill (cellf g c) with Some f => num g KUniv f | None => 0 end.
+Definition u_card (g : st) : list Z := map (u_entry g) (coll g KCell).
+Definition fill_card (g : st) : list Z := map (fill_entry g) (coll g KCell).
+
+Definition slot_eqb (a b : slot) : bool :=
+  match a, b with
+  | SlGeom, SlGeom | SlMat, SlMat | SlU, SlU | SlFill, SlFill | SlFtr, SlFtr | SlTr, SlTr | SlPer, SlPer
+  | SlMT, SlMT => true
+  | _, _ => false
+  end.
+(* the numbers written in one slot, in file order *)
+Definition slot_numbers (sl : slot) (l : list (src * slot * kind * Z)) : list Z :=
+  flat_map (fun w => let '(_, sl', _, n) := w in if slot_eqb sl' sl then [n] else []) l.
+
 (* the numbered cards of the written file: kind, object, own number *)
 Definition own_numbers (g : st) : list (kind * oid * Z) :=
   map (fun c => (KCell, c, num g KCell c)) (coll g KCell)
@@ -1468,7 +1488,8 @@ Definition dump (g : st) (ro : roster) : string :=
   ++ ":" ++ show_ids (coll g KTr) ++ ":" ++ show_ids (coll g KUniv) ++ ":"
   ++ show_b (clinked g KSurf) ++ show_b (clinked g KMat) ++ show_b (clinked g KTr) ++ "/" ++
   "D=" ++ show_list (fun x => x) (flat_map show_ditem (dins g)) ++ "/" ++
-  "W=" ++ show_list show_ref (written_refs g).
+  "W=" ++ show_list show_ref (written_refs g) ++ "/" ++
+  "U=" ++ show_list show_Z (u_card g) ++ "/" ++ "F=" ++ show_list show_Z (fill_card g).
 
 Definition show_err (e : err) : string :=
   match e with
